@@ -248,7 +248,10 @@ def install(E):
             return v if signed else sgn(v, w)
         m = mode(s)
         if m == 'havoc':
-            v = s.newsym(st, 'fptoi', *rng(w)); v.taint = 'havoc'; return v
+            hr = getattr(st, 'havoc_range', None)
+            if hr is not None and signed: v = s.newsym(st, 'fptoi', max(hr[0], lo), min(hr[1], hi))
+            else: v = s.newsym(st, 'fptoi', *rng(w))
+            v.taint = 'havoc'; return v
         if m == 'exact':
             bv = z3.fpToSBV(RTZ, x.t, z3.BitVecSort(w)) if signed else z3.fpToUBV(RTZ, x.t, z3.BitVecSort(w))
             iv = z3.BV2Int(bv, is_signed=signed)
